@@ -27,7 +27,7 @@ theorem checkEEDGE_cases (s c : Int) (str : Option Int) (sh : Int) :
     (checkEEDGE exact s c str sh = NC_EEDGE ∧ EdgeViol s c str sh) := by
   unfold checkEEDGE EdgeViol exact NC_NOERR NC_EEDGE
   have h1 : ∀ x : Int, x + -1 = x - 1 := fun x => by omega
-  cases str <;> simp [h1] <;> (repeat' split) <;> omega
+  cases str <;> simp [h1] <;> (repeat' split) <;> simp_all <;> omega
 
 
 /-! ### the loops -/
@@ -630,5 +630,120 @@ theorem writeAll_outside (xsz : Nat) : ∀ (offs : List Nat) (f : File) (data : 
     have := h off List.mem_cons_self
     have hn : ¬ (off ≤ p ∧ p < off + xsz) := by omega
     simp only [hn, if_false]
+
+/-! ### the repaired (division-form) check_EEDGE -/
+
+theorem edgeS_div (s c t sh : Int) (h0 : ¬ c > sh - s) (hs : 0 ≤ s) :
+    divForm.edgeS s c t sh = exact.edgeS s c t sh := by
+  unfold divForm exact
+  simp only [decide_eq_decide]
+  have e1 : c + -1 = c - 1 := by omega
+  rw [e1]
+  by_cases hc : c > 1
+  · by_cases ht : t > 0
+    · have hpos : (0 : Int) < c - 1 := by omega
+      have := Int.ediv_lt_iff_lt_mul (a := sh - 1 - s) (b := t) hpos
+      have hm : t * (c - 1) = (c - 1) * t := Int.mul_comm _ _
+      constructor
+      · rintro ⟨_, _, h⟩
+        have := this.mp h
+        exact ⟨by omega, by omega⟩
+      · rintro ⟨_, h⟩
+        exact ⟨hc, ht, this.mpr (by omega)⟩
+    · have : (c - 1) * t ≤ 0 := Int.mul_nonpos_of_nonneg_of_nonpos (by omega) (by omega)
+      constructor
+      · rintro ⟨_, h, _⟩; exact absurd h ht
+      · rintro ⟨_, h⟩; omega
+  · constructor
+    · rintro ⟨h, _⟩; exact absurd h hc
+    · rintro ⟨h1, h2⟩
+      have hc1 : c = 1 := by omega
+      subst hc1
+      simp at h2
+      omega
+
+theorem checkEEDGE_div (s c : Int) (str : Option Int) (sh : Int) (hs : 0 ≤ s) :
+    checkEEDGE divForm s c str sh = checkEEDGE exact s c str sh := by
+  have h0 : divForm.edge0 s c sh = exact.edge0 s c sh := by
+    unfold divForm exact; simp only [decide_eq_decide]; omega
+  unfold checkEEDGE
+  rw [h0]
+  by_cases he : exact.edge0 s c sh = true
+  · simp [he]
+  · simp only [he, Bool.false_eq_true, if_false]
+    cases str with
+    | none => rfl
+    | some t =>
+      have : ¬ c > sh - s := by
+        intro h
+        apply he
+        unfold exact; simp only [decide_eq_true_eq]; omega
+      simp only [edgeS_div s c t sh this hs]
+
+theorem edgeLoop_div (hst : Bool) : ∀ (l : List D), (∀ d ∈ l, 0 ≤ d.start) →
+    edgeLoop divForm hst l = edgeLoop exact hst l
+  | [], _ => rfl
+  | d :: ds, h => by
+    unfold edgeLoop
+    rw [checkEEDGE_div d.start d.count _ d.shape (h d List.mem_cons_self),
+        edgeLoop_div hst ds (fun x hx => h x (List.mem_cons_of_mem _ hx))]
+
+theorem coordLoop_start_nonneg (strict hc : Bool) : ∀ (l : List D),
+    coordLoop strict hc l = NC_NOERR → ∀ d ∈ l, 0 ≤ d.start
+  | [], _, d, hd => by cases hd
+  | x :: xs, h, d, hd => by
+    unfold coordLoop at h
+    rcases checkEINVALCOORDS_cases strict x.start (if hc then x.count else 1) x.shape with ⟨h1, h2⟩ | ⟨h1, _⟩
+    · simp only [h1, ne_eq, not_true_eq_false, if_false] at h
+      rcases List.mem_cons.mp hd with rfl | hd
+      · unfold BadCoord at h2
+        have : ¬ d.start < 0 := fun hlt => h2 (Or.inl hlt)
+        omega
+      · exact coordLoop_start_nonneg strict hc xs h d hd
+    · simp only [h1] at h
+      have hne : NC_EINVALCOORDS ≠ NC_NOERR := by decide
+      simp only [hne, ne_eq, not_false_eq_true, if_true] at h
+
+/-- the repaired checker is the checker over exact integers: no envelope needed -/
+theorem checkSCS_div (c : Ctx) (r : Req) : checkSCS divForm c r = checkSCS exact c r := by
+  unfold checkSCS
+  cases hd : r.dims with
+  | nil => rfl
+  | cons d0 rest =>
+    simp only
+    by_cases h0 : r.startNull = true ∨ d0.start < 0
+    · simp only [h0, if_true]
+    · simp only [h0, if_false]
+      have hs0 : 0 ≤ d0.start := by
+        have : ¬ d0.start < 0 := fun h => h0 (Or.inr h)
+        omega
+      rw [checkEEDGE_div d0.start d0.count _ d0.shape hs0]
+      generalize hE1 : (if c.isRec = true then
+          if c.classic = true ∧ d0.start > NC_MAX_UINT then NC_EINVALCOORDS
+          else if c.isRead = true then
+            if d0.shape = 0 ∧ (if r.hasCount = true then d0.count else 1) > 0 then NC_EINVALCOORDS
+            else checkEINVALCOORDS c.strict d0.start (if r.hasCount = true then d0.count else 1) d0.shape
+          else NC_NOERR
+        else NC_NOERR) = e1
+      by_cases he1 : e1 ≠ NC_NOERR
+      · rw [if_pos he1, if_pos he1]
+      · rw [if_neg he1, if_neg he1]
+        by_cases he2 : coordLoop c.strict r.hasCount (if c.isRec = true then rest else d0 :: rest) ≠ NC_NOERR
+        · rw [if_pos he2, if_pos he2]
+        · rw [if_neg he2, if_neg he2]
+          have hz : coordLoop c.strict r.hasCount (if c.isRec = true then rest else d0 :: rest) = NC_NOERR := by
+            by_cases h : coordLoop c.strict r.hasCount (if c.isRec = true then rest else d0 :: rest) = NC_NOERR
+            · exact h
+            · exact absurd h he2
+          have hnn := coordLoop_start_nonneg c.strict r.hasCount _ hz
+          rw [edgeLoop_div r.hasStride _ hnn]
+
+/-- in the repaired code the strided test is only reached with a non-negative dividend (so C's
+    truncating division and the floor division of the model agree) and every intermediate value
+    is representable: nothing can overflow -/
+theorem divForm_no_overflow (s c sh : Int) (hs : 0 ≤ s) (hsh : fits64 sh) (hc : fits64 c)
+    (h0 : ¬ c > sh - s) (hc1 : c > 1) :
+    0 ≤ sh - 1 - s ∧ fits64 (sh - s) ∧ fits64 (sh - 1 - s) ∧ fits64 (c - 1) ∧ 0 < c - 1 := by
+  unfold fits64 at *; omega
 
 end PnVerif.Scs
